@@ -58,6 +58,8 @@ CONSTANTS GMaxSteps,      \* number of non-closing steps explored exhaustively
           GMaxSchemaSteps,\* bound on the number of non-closing schema -> schema steps of a walk
           GTier,          \* "full" / "ofat": which run configurations a graph is run under (RunUnder)
           GOfatSteps,     \* "ofat": graphs up to this many steps get the one-factor-at-a-time variations
+          GFullSteps,     \* graphs of at most this many non-closing steps are all emitted; of the longer ones a seeded slice
+          GStride, GSeed, \* the slice: graphs whose Weight is congruent to GSeed modulo GStride (GStride = 1: all of them)
           GAliasHop       \* whether the closing reference may pass through one more alias component: subset of BOOLEAN
 
 Usable(e) == e.from = "schema" /\ e.to = "schema" /\ e.site # "$ref" => e.site \in GSites
@@ -92,14 +94,29 @@ Step(e, mode) ==
 (* configuration is: one file, direct closing reference, node 0 used by an operation, LoadFromData, switch on, JSON.          *)
 (* "full": the whole product (YAML only through LoadFromData with the switch on).                                             *)
 (* "ofat": one factor at a time -- the default and every configuration that differs from it in exactly one factor -- for      *)
-(*         graphs of at most GOfatSteps non-closing steps; the default alone for longer graphs.                               *)
+(*         graphs of at most GOfatSteps non-closing steps; for longer graphs the default and the "all external" one (every    *)
+(*         component, hence the whole cycle, lives in ext.json and the root file only refers to node 0; LoadFromFile).        *)
+AllExternal(sp, h, u, en, al, ya) == sp = 0 /\ ~h /\ u /\ en = "file" /\ al /\ ~ya
 IsDefault(sp, h, u, en, al, ya) == sp = NoSplit /\ ~h /\ u /\ en = "data" /\ al /\ ~ya
 Differences(sp, h, u, en, al, ya) ==
    (IF sp # NoSplit THEN 1 ELSE 0) + (IF h THEN 1 ELSE 0) + (IF ~u THEN 1 ELSE 0) + (IF en # "data" THEN 1 ELSE 0)
    + (IF ~al THEN 1 ELSE 0) + (IF ya THEN 1 ELSE 0)
 RunUnder(sp, h, u, en, al, ya) ==
    /\ (ya => en = "data" /\ al)
-   /\ (GTier = "ofat" => Differences(sp, h, u, en, al, ya) <= (IF Len(steps) <= GOfatSteps THEN 1 ELSE 0))
+   /\ (GTier = "ofat" => \/ Differences(sp, h, u, en, al, ya) <= (IF Len(steps) <= GOfatSteps THEN 1 ELSE 0)
+                         \/ AllExternal(sp, h, u, en, al, ya))
+
+(* A deterministic weight of a closed graph, for seeded slices (TLC has no hash of a value to offer).                        *)
+SiteSeq == <<"$ref", "properties", "items", "additionalProperties", "allOf", "anyOf", "oneOf", "not", "schema", "content", "examples",
+             "encoding", "headers", "links", "expression", "operation", "parameters", "requestBody", "responses", "callbacks">>
+KindSeq == <<"schema", "parameter", "header", "requestBody", "response", "link", "callback", "pathItem", "example",
+             "mediaType", "encoding", "operation">>
+Ord(seq, x) == CHOOSE i \in DOMAIN seq : seq[i] = x
+RECURSIVE StepsWeight(_)
+StepsWeight(i) == IF i = 0 THEN 0
+                  ELSE StepsWeight(i - 1) + (2 * i + 1) * Ord(SiteSeq, steps[i].site) + (IF steps[i].mode = "ref" THEN i ELSE 0)
+Weight(e, back) == Ord(KindSeq, root) + StepsWeight(Len(steps)) + 3 * Ord(SiteSeq, e.site) + 5 * back
+InSlice(e, back) == Len(steps) <= GFullSteps \/ Weight(e, back) % GStride = GSeed % GStride
 
 Close(e, back, sp, h, u, en, al, ya) ==
    /\ e \in KindGraph /\ Usable(e) /\ e.from = KindOf(Last) /\ back \in 0..Last /\ e.to = KindOf(back)
@@ -109,7 +126,7 @@ Close(e, back, sp, h, u, en, al, ya) ==
    /\ sp \in GSplits \cup {NoSplit} /\ (sp # NoSplit => sp <= Last + 1)
    /\ (sp = 0 => u)                                                   \* everything in ext.json: the root file must refer to it
    /\ h \in GAliasHop \cup {FALSE}
-   /\ RunUnder(sp, h, u, en, al, ya)
+   /\ RunUnder(sp, h, u, en, al, ya) /\ InSlice(e, back)
    /\ close' = <<[site |-> e.site, back |-> back]>> /\ split' = sp /\ hop' = h
    /\ used' = u /\ gentry' = en /\ gallow' = al /\ gyaml' = ya
    /\ UNCHANGED <<root, steps>>
@@ -117,7 +134,7 @@ Close(e, back, sp, h, u, en, al, ya) ==
 OutEdges == {e \in KindGraph : e.from = KindOf(Last) /\ Usable(e)}
 GNext == Open /\
          (\/ \E e \in OutEdges, m \in {"inline", "ref"} : Step(e, m)
-          \/ \E e \in {x \in OutEdges : x.to \in RefKinds} : \E b \in {n \in 0..Last : KindOf(n) = e.to} :
+          \/ \E e \in {x \in OutEdges : x.to \in RefKinds} : \E b \in {n \in 0..Last : KindOf(n) = e.to /\ InSlice(e, n)} :
                 \E sp \in {x \in GSplits : x <= Last + 1} \cup {NoSplit}, h \in GAliasHop \cup {FALSE}, u \in BOOLEAN,
                    en \in {"data", "datapath", "file"}, al \in BOOLEAN, ya \in BOOLEAN :
                    RunUnder(sp, h, u, en, al, ya) /\ Close(e, b, sp, h, u, en, al, ya))
